@@ -136,21 +136,21 @@ Fixpoint clean_inputs (rec : path -> cl -> option cl) (ins : list path) (s : cl)
            end
   end.
 
-(* Cleaner::DoCleanTarget(target).  The C++ recursion is bounded only by the graph: on a cyclic
-   manifest it does not terminate (stack overflow), because a node is inserted into cleaned_ only
-   AFTER the recursion over its inputs.  None = out of fuel. *)
+(* Cleaner::DoCleanTarget(target): the node is inserted into cleaned_ FIRST, then its producing
+   statement is cleaned and the walk continues into the inputs that are not yet in cleaned_.  Every
+   recursive call therefore consumes a fresh node: the depth is bounded by the number of distinct
+   input names (+1 for the named target), cycles included.  The fuel only makes the definition
+   structural; None = out of fuel is unreachable with default_fuel (CleanProofs.clean_targets_total). *)
 Fixpoint do_clean_target (fuel : nat) (dry : bool) (g : graph) (t : path) (s : cl) : option cl :=
   match fuel with
   | O => None
   | S f =>
+      let s0 := mark_cleaned t s in
       match in_edge g t with
-      | None => Some (mark_cleaned t s)
+      | None => Some s0
       | Some e =>
-          let s1 := if e_phony e then s else clean_edge dry e s in
-          match clean_inputs (do_clean_target f dry g) (e_ins e) s1 with
-          | Some s2 => Some (mark_cleaned t s2)
-          | None => None
-          end
+          let s1 := if e_phony e then s0 else clean_edge dry e s0 in
+          clean_inputs (do_clean_target f dry g) (e_ins e) s1
       end
   end.
 
@@ -168,8 +168,9 @@ Fixpoint clean_targets_loop (fuel : nat) (dry : bool) (g : graph) (ts : list pat
       else clean_targets_loop fuel dry g ts' (set_status s)
   end.
 
-(* enough for every acyclic graph (CleanProofs.clean_targets_fuel_sufficient) *)
-Definition default_fuel (g : graph) : nat := S (length (g_edges g)).
+(* enough for every graph (CleanProofs.clean_targets_fuel_sufficient): one more than the number of
+   input occurrences, an upper bound of the number of distinct nodes the walk can descend into *)
+Definition default_fuel (g : graph) : nat := S (length (flat_map e_ins (g_edges g))).
 
 Definition clean_targets_fuel (fuel : nat) (dry : bool) (g : graph) (d : disk) (ts : list path) : option cl :=
   clean_targets_loop fuel dry g ts (reset d).
@@ -178,10 +179,11 @@ Definition clean_targets (dry : bool) (g : graph) (d : disk) (ts : list path) : 
   clean_targets_fuel (default_fuel g) dry g d ts.
 
 (* ---- CleanRules ---------------------------------------------------------------------------- *)
-(* DoCleanRule: RemoveEdgeFiles is called INSIDE the loop over the outputs (once per output; the
-   repetitions are absorbed by removed_) *)
+(* DoCleanRule: phony statements are skipped; RemoveEdgeFiles is called INSIDE the loop over the
+   outputs (once per output; the repetitions are absorbed by removed_) *)
 Definition clean_rule_edge (dry : bool) (r : N) (s : cl) (e : edge) : cl :=
-  if N.eqb (e_rule e) r
+  if e_phony e then s
+  else if N.eqb (e_rule e) r
   then fold_left (fun s o => remove_edge_files dry e (remove dry o s)) (e_outs e) s
   else s.
 
@@ -240,14 +242,17 @@ Module Ex.
   Example by_target : option_map result (clean_targets false g d [p 6])
                       = Some ([p 4; p 21; p 2; p 12; p 20; p 1], 6%nat, false).
   Proof. vm_compute. reflexivity. Qed.
-  Example by_rule_phony : result (clean_rules false g d [0; 99]) = ([p 5], 1%nat, true).
+  (* `-r phony` (and an unknown rule): nothing removed, status 1 for the unknown name *)
+  Example by_rule_phony : result (clean_rules false g d [0; 99]) = ([], 0%nat, true).
   Proof. vm_compute. reflexivity. Qed.
   Example dead : result (clean_dead false g d [p 4; p 0; p 30; p 5; p 20]) = ([p 20], 1%nat, false).
   Proof. vm_compute. reflexivity. Qed.
 
-  (* cyclic: build 1: r 2 ; build 2: r 1 — out of fuel for every fuel one tries *)
+  (* cyclic: build 1: r 2 ; build 2: r 1 ; and the self loop build 3: r 3 — the walk terminates *)
   Definition gc := mkGraph [mkEdge [p 1] [p 2] [] false false 7 None None;
-                            mkEdge [p 2] [p 1] [] false false 7 None None] [7] [].
-  Example cyclic_out_of_fuel : clean_targets_fuel 50 false gc d [p 1] = None.
+                            mkEdge [p 2] [p 1] [] false false 7 None None;
+                            mkEdge [p 3] [p 3] [] false false 7 None None] [7] [].
+  Example cyclic_terminates : option_map result (clean_targets false gc d [p 1; p 3])
+                              = Some ([p 1; p 2; p 3], 3%nat, false).
   Proof. vm_compute. reflexivity. Qed.
 End Ex.
